@@ -303,7 +303,10 @@ func genStore(rt *rapid.T, o storeGenOpts) storeCase {
 			if o.distinctVals {
 				lv.I = seq*7 + 1
 				lv.F = c21F(float64(seq) + 0.25)
-				lv.S = vstat.Q(fmt.Sprintf("text%d%s", seq, []string{"", "%", "%s", "%d"}[seq%4]))
+				// text values with characters every format has to carry or quote: per
+				// cent signs, a control character (ANSI escape), DEL, quotes,
+				// backslashes, non-ASCII and astral-plane runes
+				lv.S = vstat.Q(fmt.Sprintf("text%d%s", seq, []string{"", "%", "%s", "%d", "\x1b[31m", "\x7f", "\u00e9", "q\"", "b\\", "\U0001F600"}[seq%10]))
 				lv.TimeNs = (1600000000 + seq*1000) * 1e9
 				switch rapid.IntRange(0, 7).Draw(rt, "tsform") {
 				case 0:
